@@ -97,6 +97,10 @@ func GetAllSporks(context db.DB) []*Spork {
 			common.DealWithErr(iterator.Error())
 			break
 		}
+		// entries deleted by a rollback are still listed by the iterator, with an empty value
+		if len(iterator.Value()) == 0 {
+			continue
+		}
 		spork := parseSporkInfo(iterator.Value())
 		sporks = append(sporks, spork)
 	}
